@@ -640,5 +640,14 @@ def print_format(ck, F):
         # `number.to_string()` is `<f64 as Display>` as well
         if c.callee.endswith("ToString>::to_string") and (c.gargs[:1] == ["f64"] or "f64" in str(c.args[0].get("place", {}).get("ty", ""))):
             ok = True
+    # ... and with nothing else: an integer formatter on some path (`(n as i64).to_string()` for whole numbers) saturates at
+    # +-2^63 and prints other digits than f64's Display beyond 2^53
+    INTS = ("i8", "i16", "i32", "i64", "i128", "isize", "u8", "u16", "u32", "u64", "u128", "usize")
+    others = sorted({(c.gargs or ["?"])[0] for hb in with_helpers(F, b) for c in hb.calls()
+                     if (c.callee.endswith("ToString>::to_string") or c.callee.endswith("Argument::new_display") or
+                         c.callee.endswith("Argument::new_debug")) and (c.gargs or ["?"])[0] in INTS})
+    ck.require(not others, "C02:PRINT:number-display-only", "PRINT formatting", "no integer formatter in PRINT",
+               "evaluate_print_statement also formats values as %s: numbers take a detour through an integer type on some path and "
+               "print differently from f64's Display (saturation at 2^63, other digits beyond 2^53, -0 as 0)" % ", ".join(others), b.span)
     ck.require(ok, "C02:PRINT:number-display", "PRINT formatting", "numbers are formatted with <f64 as Display>",
                "PRINT no longer formats numbers with f64's Display", b.span)
